@@ -13,6 +13,8 @@ an observer component (logs `taken`, `success`, `failure`, `complete`,
               (join runs what is queued, in order, and publishes it).  Every
               interleaving of submissions, executions, completions and ticks
               that TLC enumerates can be replayed exactly.
+  * 'process' - Worker(process=True): the real multiprocessing.Pool, free-running; the
+              children count the executions of each job in shared memory
   * 'real'  - the real multiprocessing.pool.ThreadPool the Worker created; the
               pool's `apply_async` / `close` / `join` are wrapped (instance
               attributes, nothing in /repo or the standard library is edited)
@@ -40,13 +42,19 @@ WRONG, MULTI, FOREIGN = 5, 6, 7
 
 FALSY_VALUES = [0, '', (), 0.0, False]
 
+import multiprocessing as _mp
+_EXEC = _mp.Array('i', 64)     # process pools: how often job t has started (children inherit the mapping by fork)
+
 _WORLD = None            # the World whose jobs are running (jobs are module-level functions: picklable, found by name)
 
 
 class JobError(Exception):
     def __init__(self, t):
-        Exception.__init__(self, 'job %d failed' % t)
+        Exception.__init__(self, t)      # args = (t,): survives pickling (process pools)
         self.t = t
+
+    def __str__(self):
+        return 'job %r failed' % (self.t,)
 
 
 class NotDriven(Exception):
@@ -118,6 +126,10 @@ class FakeResult:
         return self.ok
 
     def wait(self, timeout=None):
+        if timeout is not None:
+            # a bounded wait returns by itself: a poll (that costs the loop up to `timeout`)
+            self.pool.world.line('poll', self.t, 1 if self.state == 'ready' else 0, 'wait')
+            return
         self.pool.world.line('get', self.t, 1 if self.state == 'ready' else 0, 'wait')
         if self.state != 'ready':
             self.pool.finish(self)
@@ -223,6 +235,7 @@ class RealResult:
     def _note_ready(self):
         if not self.seen_ready:
             self.seen_ready = True
+            self.world.sync_execs()
             self.world.line('ready', self.t)
 
     def ready(self):
@@ -239,6 +252,10 @@ class RealResult:
         r = self.res.ready()
         if r:
             self._note_ready()
+        if timeout is not None:
+            self.world.line('poll', self.t, 1 if r else 0, 'wait')
+            self.res.wait(min(timeout, 0.001))
+            return
         self.world.line('get', self.t, 1 if r else 0, 'wait')
         if not r:
             self.world.open_gate(self.t)
@@ -278,6 +295,7 @@ class World:
         self.exceptions = 0
         self.unsettled = False
         self.torn = False
+        self.terminated = False
         _WORLD = self
         self.m = Manager()
         world = self
@@ -292,6 +310,15 @@ class World:
             self.pool = self.w.pool
             if not isinstance(self.pool, FakePool):
                 raise NotDriven('Worker did not take its pool from circuits.core.workers.ThreadPool')
+        elif pool == 'process':
+            self.gated = False
+            self.execs_logged = {}
+            with _EXEC.get_lock():
+                for i in range(len(_EXEC)):
+                    _EXEC[i] = 0
+            self.w = workers_mod.Worker(process=True, workers=workers or 2).register(self.m)
+            self.pool = self.w.pool
+            self._wrap_real_pool()
         else:
             self.w = workers_mod.Worker(workers=workers).register(self.m)
             self.pool = self.w.pool
@@ -361,8 +388,10 @@ class World:
 
     # -- log -------------------------------------------------------------------
     def line(self, k, t=0, v=0, r=''):
+        ln = {'k': k, 't': t, 'v': v, 'r': r}
         with self.lock:
-            self.log.append({'k': k, 't': t, 'v': v, 'r': r})
+            self.log.append(ln)
+        return ln
 
     def tid(self, event):
         a = event.args
@@ -371,11 +400,28 @@ class World:
         return 0
 
     def job_started(self, t):
+        if self.kind == 'process':
+            # in a child process: the parent logs the exec lines when it sees the result (sync_execs)
+            with _EXEC.get_lock():
+                if 0 <= t < len(_EXEC):
+                    _EXEC[t] += 1
+            return
         if self.kind == 'real' and self.gated:
             g = self.gates.get(t)
             if g is not None and not g.wait(WAIT_S):
                 return          # abandoned run
         self.line('exec', t)
+
+    def sync_execs(self):
+        """process pools: log the executions the children have counted since the last look"""
+        if self.kind != 'process':
+            return
+        with _EXEC.get_lock():
+            counts = list(_EXEC)
+        for t, c in enumerate(counts):
+            while self.execs_logged.get(t, 0) < c:
+                self.execs_logged[t] = self.execs_logged.get(t, 0) + 1
+                self.line('exec', t)
 
     def scan_values(self):
         for t in sorted(self.events):
@@ -440,6 +486,8 @@ class World:
             self.pool.execute(r)
             return True
         n = self._count('exec', t)
+        if n >= len(self.results.get(t, [])):
+            return False             # nothing of t waits in the pool
         self.open_gate(t)
         self._wait(lambda: self._count('exec', t) > n, 'job %d to start' % t)
         return True
@@ -451,6 +499,8 @@ class World:
                 return False
             self.pool.publish(r)
             return True
+        if self.terminated or self._count('exec', t) == 0 or all(rr.seen_ready for rr in self.results.get(t, [])):
+            return False
         for rr in self.results.get(t, []):
             self._wait(rr.res.ready, 'result of task %d' % t)
             rr._note_ready()
@@ -466,19 +516,23 @@ class World:
             return
         for t in sorted(self.results):
             self.open_gate(t)
+        if self.terminated:
+            time.sleep(0.02)
         for t in sorted(self.results):
             for rr in self.results[t]:
-                self._wait(rr.res.ready, 'result of task %d' % t)
+                if not self.terminated:
+                    self._wait(rr.res.ready, 'result of task %d' % t)
         for t in sorted(self.results):
             for rr in self.results[t]:
-                rr._note_ready()
+                if rr.res.ready():
+                    rr._note_ready()
 
     def stable(self):
         if len(self.m) or self.m._tasks:
             return False
         if self.kind == 'fake':
             return not (self.pool.pending() and self.pool.state != 'terminated')
-        return all(rr.seen_ready for rs in self.results.values() for rr in rs)
+        return self.terminated or all(rr.seen_ready for rs in self.results.values() for rr in rs)
 
     def quiesce(self, cap=SETTLE_TICKS):
         n = 0
@@ -491,8 +545,43 @@ class World:
                 break
             self.tick()
             n += 1
+        self.sync_execs()
         running = self.pool_running()
         self.line('quiet', 0, 1 if running else 0, 'unsettled' if self.unsettled else '')
+
+    def run_until_announced(self):
+        """Free-running real pool: tick, with tiny sleeps, until every task fired so far has been announced
+        and every caller resumed (bounded: a time-out is a machinery error)."""
+        end = time.monotonic() + WAIT_S
+
+        def owed():
+            with self.lock:
+                noted = {ln['t'] for ln in self.log if ln['k'] in ('success', 'failure')}
+                resumed = {ln['t'] for ln in self.log if ln['k'] == 'resume'}
+                fired = [(ln['t'], ln['r']) for ln in self.log if ln['k'] == 'fire']
+            return any(t not in noted or (m == 'call' and t not in resumed) for t, m in fired)
+
+        n = 0
+        idle = 0
+        while owed() or len(self.m) or self.m._tasks:
+            if self.terminated and n > 200:
+                return
+            if time.monotonic() > end:
+                raise NotDriven('free-running pool: tasks not announced after %.0f s' % WAIT_S)
+            before = len(self.log)
+            self.tick()
+            n += 1
+            # nothing moves any more although the pool has finished everything: whatever is still owed will
+            # never come (the monitor says so at quiescence); do not wait for the clock
+            pool_done = all(rr.res.ready() for rs in self.results.values() for rr in rs)
+            if pool_done and not len(self.m) and not self.m._tasks and len(self.log) == before + 1:
+                idle += 1
+                if idle >= 5:
+                    return
+            else:
+                idle = 0
+            if n > 3:
+                time.sleep(0.0003)
 
     def pool_running(self):
         if self.kind == 'fake':
@@ -528,12 +617,13 @@ class World:
 
         def apply_async(func, args=(), kwds={}, callback=None, error_callback=None):
             t = args[0] if args and isinstance(args[0], int) else 0
+            # logged before the pool gets the job: a pool thread may start it at once
+            ln = world.line('submit', t)
             try:
                 res = real_apply_async(func, args, kwds, callback, error_callback)
             except ValueError:
-                world.line('submit', t, 0, 'rejected')
+                ln['r'] = 'rejected'
                 raise
-            world.line('submit', t)
             rr = RealResult(world, t, res)
             world.results.setdefault(t, []).append(rr)
             return rr
@@ -544,6 +634,7 @@ class World:
 
         def terminate():
             world.line('closed', 0, 0, 'terminate')
+            world.terminated = True         # what has not run yet never will: nothing to wait for any more
             real_terminate()
 
         def join():
@@ -569,7 +660,7 @@ class World:
         if self.torn:
             return
         self.torn = True
-        if self.kind == 'real':
+        if self.kind in ('real', 'process'):
             for t in list(self.gates):
                 self.open_gate(t)
             try:
